@@ -1,6 +1,6 @@
 (** C11 — files are flushed before they are published, and published before acknowledged *)
 From Coq Require Import List NArith Bool.
-From LS Require Import Fs.Model Fs.Monitor Fs.Publish Fs.Proofs Fs.ProtoProofs Fs.CoverProofs.
+From LS Require Import Fs.Model Fs.Monitor Fs.Publish Fs.Proofs Fs.ProtoProofs Fs.CoverProofs Fs.ExactProofs.
 Import ListNotations.
 Open Scope N_scope.
 
@@ -57,6 +57,19 @@ Theorem acked_txids_stay_covered : forall t,
     complete_after (run t1 fs_empty) s' q.
 Proof. exact CoverProofs.acked_txids_stay_covered. Qed.
 Print Assumptions acked_txids_stay_covered.
+
+(** content, not only presence: a name acknowledged and not renamed over /
+    unlinked since resolves, after a power failure, to exactly the inode
+    acknowledged last (a file it replaced cannot reappear), complete *)
+Theorem acked_content_exact : forall t,
+  publish_ok t = true ->
+  forall t1 t2, t = t1 ++ t2 ->
+  forall s', crash (run t1 fs_empty) s' ->
+  forall p a, In (p, a) (exact_acked t1) ->
+    svol s' p = Some a /\
+    (strictb p = true -> ivol (sino s' a) = ivol (sino (run t1 fs_empty) a)).
+Proof. exact ExactProofs.acked_content_exact. Qed.
+Print Assumptions acked_content_exact.
 
 (** directories are objects: an fsync through a descriptor opened on an earlier
     directory object at the same path (before rmdir / mkdir) changes nothing *)
